@@ -10,6 +10,7 @@ import (
 
 	"github.com/specterops/dawgs/cypher/frontend"
 	"github.com/specterops/dawgs/cypher/models/cypher"
+	cyformat "github.com/specterops/dawgs/cypher/models/cypher/format"
 	"github.com/specterops/dawgs/cypher/models/pgsql"
 	"github.com/specterops/dawgs/cypher/models/pgsql/translate"
 	"github.com/specterops/dawgs/drivers/pg/pgutil"
@@ -88,6 +89,16 @@ func TranslateWith(q *cypher.RegularQuery, params map[string]any, mapper pgsql.K
 // Translate uses a fresh AutoMapper.
 func Translate(q *cypher.RegularQuery, params map[string]any) (Result, error) {
 	return TranslateWith(q, params, NewAutoMapper())
+}
+
+// Emit renders a model as Cypher text (the Neo4j path's emitter).
+func Emit(q *cypher.RegularQuery) (text string, err error) {
+	defer func() {
+		if p := recover(); p != nil {
+			err = fmt.Errorf("emitter panicked: %v", p)
+		}
+	}()
+	return cyformat.RegularQuery(q, false)
 }
 
 // Parse parses with the unfiltered context; a panic is returned as an error.
